@@ -1,9 +1,9 @@
 (* Model of spdxexp/parse.go as a function from token lists to trees / errors, written as a recursive descent over the
    token list.  (Since the repair of D-k - fatal stack overflow on ~2 million nested parentheses - parse.go keeps the
-   parenthesis levels on an explicit stack instead of recursing; it computes the same function: same trees, same error
-   values.  That is checked on every run by the correspondence on V/S/O/R lines and, tree for tree, by the auxiliary P
-   lines; the theorems are about this function, whose fuel 3*|tokens|+3 is proved sufficient, so nesting depth is not a
-   parameter of the model at all.)
+   parenthesis levels on an explicit stack instead of recursing.  That loop is transcribed in Model/ParseStack.v and
+   proved to compute exactly the function below, for token lists of any length and nesting (Proofs/ParseStack.v:
+   stack_equals_recursive); the recursive form is kept here because every downstream lemma unfolds it.  The fuel
+   3*|tokens|+3 is proved sufficient, so nesting depth is not a parameter of the model at all.)
    tokenStream{tokens,index} is the list of remaining tokens; peek() = head; a nil result of peek()
    is the [] case of each match (the Go code tests token == nil before reading token.role).
    parseExpression / parseAnd / parseAtom are mutually recursive on fuel; 3*|tokens|+3 is sufficient
